@@ -532,6 +532,19 @@ def module_locality_implies_package_locality(F, res, rule="V11"):
            where="crates/ide/src/ide/rename.rs", how="direct Package::is_local calls: %s" % direct)
     f = F.fn(p)
     d = FL.Defs(f)
+    # the path test may live in a private helper of the module (`lies_in_build_packages(path)`): it takes part in what follows
+    UNIT = [q for q in F.with_helpers(p, depth=1, stop=("ide::def::hir::Package::", "ide::def::hir::Module::package", "ide::base::"))
+            if q == p or q.startswith(p + "::") or (q.startswith("ide::def::hir::") and "Package::" not in q and "Module::" not in q) or
+            (q.startswith("ide::def::hir::Module::") and F.fns[q].d.get("vis") != "pub" and q != p)]
+    # ... or be handed over as a function item: `.map_or(false, lies_in_build_packages)`
+    for q in list(UNIT):
+        for _b, t in F.fns[q].calls():
+            for a in t["args"]:
+                k = a.get("k") if isinstance(a, dict) else None
+                if isinstance(k, dict) and "fn" in k:
+                    tg = k["fn"].get("res") or k["fn"].get("def") or ""
+                    if tg.startswith("ide::def::hir::") and tg in F.fns and F.fns[tg].blocks and tg not in UNIT:
+                        UNIT += [tg] + [c for c in F.closures_of(tg) if c in F.fns]
     dep = {"calls": set(), "strs": set(), "args": set()}
     for b in f.return_blocks():
         pass
@@ -559,7 +572,7 @@ def module_locality_implies_package_locality(F, res, rule="V11"):
     pkg = any(c.endswith("Package::is_local") for c in dep["calls"])
     own = any(c.endswith("Module::package") or c.endswith("file_source_root") for c in dep["calls"])
     strs = set(dep["strs"])
-    for cp in F.with_closures(p):
+    for cp in UNIT:
         cf = F.fns[cp]
         for _b, _i, s_ in cf.stmts():
             rv = s_.get("rv") or {}
@@ -573,13 +586,13 @@ def module_locality_implies_package_locality(F, res, rule="V11"):
     # the path test looks at the whole path of the file: nothing cuts a prefix off before (a test on the part below the module's
     # own source root misses a fetched package that *is* a source root of its own - `<app>/build/packages/dep` registered as a root
     # without an entry in the package graph)
-    shortened = sorted({FL.short(c) for cp in F.with_closures(p) for _b, t in F.fns[cp].calls()
+    shortened = sorted({FL.short(c) for cp in UNIT for _b, t in F.fns[cp].calls()
                         for c in [callee(t) or callee_def(t) or ""] if c.rsplit("::", 1)[-1] in ("strip_prefix", "file_name", "skip", "nth", "last", "root_path")})
     res.ob(rule, "module-is-local/whole-path", "Module::is_local tests the file's whole path for a build/packages directory (no prefix is stripped first)",
            not shortened, where=f.loc(), how="calls that shorten or re-base the path: %s" % shortened)
     # the directory is looked for component by component (Path::ancestors / components / ends_with / starts_with): a test on the path
     # as text (`contains`, `find`, `matches`) also fires on src/build/packages.gleam and on my-build/packages-old/
-    textual = sorted({FL.short(c) for cp in F.with_closures(p) for _b, t in F.fns[cp].calls()
+    textual = sorted({FL.short(c) for cp in UNIT for _b, t in F.fns[cp].calls()
                       for c in [callee(t) or callee_def(t) or ""]
                       if c.rsplit("::", 1)[-1] in ("contains", "find", "rfind", "matches", "match_indices", "split", "starts_with", "ends_with", "to_str",
                                                     "to_string_lossy", "to_string", "display") and
